@@ -7,6 +7,7 @@ knows every expected byte.  `p8tool build` is run through pico8.tool.main(argv);
 picture (upper six bits), a .p8 OUT its __label__ section.  Conflicting/unusable arguments must fail and leave OUT untouched.
 """
 import itertools
+from .. import ambient
 import os
 import shutil
 import tempfile
@@ -124,7 +125,7 @@ def failing_build(rng, root):
     with open(os.path.join(d, 'lib', 'a.lua'), 'wb') as fh:
         fh.write(b'require("is_missing")\n')
     try:
-        tool.main(['-q', 'build', os.path.join(d, 'o.p8'), '--lua', os.path.join(d, 'main.lua')])
+        tool.main([ambient.vflag(), 'build', os.path.join(d, 'o.p8'), '--lua', os.path.join(d, 'main.lua')])
     except BaseException:
         pass
     shutil.rmtree(d, ignore_errors=True)
@@ -155,7 +156,7 @@ def run_build(ctx, rng, pool, root, assign, out_state, out_fmt, lua_from_file, r
             data = rc.write_p8png(pregions, rc.raw_code_area(pcode), 8, base_rows=prev_rows)
         with open(out, 'wb') as fh:
             fh.write(data)
-    argv = ['-q', 'build', out]
+    argv = [ambient.vflag(), 'build', out]
     expected = {}
     defaults = empty_defaults()
     desc = {}
@@ -332,7 +333,7 @@ def run_error(ctx, rng, pool, root, index=0):
         before = data
     sec = SECTIONS[(index // len(ERROR_KINDS)) % 6]
     good = rng.choice(pool.items['p8'])['path']
-    argv = ['-q', 'build', out]
+    argv = [ambient.vflag(), 'build', out]
     # some valid arguments first, so that an implementation that writes early is caught
     other = rng.choice([s for s in SECTIONS if s != sec])
     argv += ['--' + other, rng.choice(pool.items['png'])['path']]
@@ -426,7 +427,7 @@ def replay(case, ctx):
         for name, data in case.get('files', {}).items():
             with open(os.path.join(root, name), 'wb') as fh:
                 fh.write(data)
-        argv = ['-q', 'build'] + [os.path.join(root, a) if (a.endswith(('.p8', '.png', '.lua', '.txt'))) else a for a in case['argv']]
+        argv = [ambient.vflag(), 'build'] + [os.path.join(root, a) if (a.endswith(('.p8', '.png', '.lua', '.txt'))) else a for a in case['argv']]
         out = argv[2]
         ctx.case(repr(case['argv']))
         if 'error_kind' in case:
